@@ -1,6 +1,6 @@
 package harness
 
-// Native (coverage-guided) fuzz targets, used by the thorough tiers of C05, C06 and C07.
+// Native (coverage-guided) fuzz targets, used by the thorough tiers of C02/C03, C05, C06 and C07.
 // Each target carries its oracle; the saved failing input is the reproducible unit.
 
 import (
@@ -8,6 +8,7 @@ import (
 
 	"github.com/tidwall/geojson"
 	"github.com/tidwall/geojson/geometry"
+	"pgregory.net/rapid"
 	"verifharness/fw"
 	"verifharness/refjson"
 )
@@ -88,6 +89,36 @@ func FuzzRoundTrip(f *testing.F) {
 			t.Fatal(o.Fail)
 		}
 	})
+}
+
+// FuzzPairs: C02 and C03 with the exact planar oracle, the rapid generators driven by the fuzzer's bytes
+// (rapid.MakeFuzz), so that coverage feedback from the library steers the shapes.
+func FuzzPairs(f *testing.F) {
+	// starting corpus: fixed pseudo-random byte strings long enough for whole shape pairs (an empty corpus only
+	// reaches the first few draws of the generators)
+	x := uint64(0x9E3779B97F4A7C15)
+	for i := 0; i < 24; i++ {
+		b := make([]byte, 1024+256*i)
+		for j := range b {
+			x = x*6364136223846793005 + 1442695040888963407
+			b[j] = byte(x >> 56)
+		}
+		f.Add(b)
+	}
+	f.Fuzz(rapid.MakeFuzz(func(t *rapid.T) {
+		var c pairCase
+		if rapid.Bool().Draw(t, "contains") {
+			c = c03Gen(t)
+			if o := c03Check(c); o.Fail != "" && o.Known == "" && o.Infra == "" {
+				t.Fatalf("C03: %s", o.Fail)
+			}
+			return
+		}
+		c = c02Gen(t)
+		if o := c02Check(c); o.Fail != "" && o.Known == "" && o.Infra == "" {
+			t.Fatalf("C02: %s", o.Fail)
+		}
+	}))
 }
 
 var _ = fw.OK
